@@ -7,7 +7,7 @@
      __main__._main / tree._tree                      build it from  -x patterns ++ [codebase].exclude.
    Definitions only. *)
 From Coq Require Import Bool Arith ZArith String Ascii List.
-From CBI Require Import Lib.Res Model.C01 Model.C04 Model.C08.
+From CBI Require Import Lib.Res Model.C01 Model.C04 Model.C08 Gen.C08_tables.
 Import ListNotations.
 Local Open Scope string_scope.
 Local Open Scope list_scope.
@@ -46,8 +46,12 @@ Definition member_of (root : path) (pats : list pat) (f : path) : bool :=
   | _ => false
   end.
 
-(* args.excludes (from -x, in order) += analysis_toml["codebase"]["exclude"] *)
-Definition effective (xs ts : list pat) : list pat := xs ++ ts.
+(* args.excludes (from -x, in order) += analysis_toml["codebase"]["exclude"]; how the two lists
+   are combined in __main__._main is read from the source (Gen/C08_tables.v); Props/C10.v
+   also checks that tree._tree does the same *)
+Definition effective_for (m : exclude_mode) (xs ts : list pat) : list pat :=
+  match m with XThenToml => xs ++ ts | TomlOnly => ts end.
+Definition effective (xs ts : list pat) : list pat := effective_for excludes_main xs ts.
 
 (* one whole analysis as the CLIs run it *)
 Definition analyse (fs : fsys) (fuel : nat) (root : path) (xs ts : list pat) (w : nodeid -> nat) (cfg : config)
